@@ -169,12 +169,16 @@ def evaluator_part(chk, tier, seed, programs):
     light = [sch[0], sch[2], sch[3], sch[-1]]    # never, every step, one period, one explicit step set
     cases, meta = [], []
     for name, src in programs:
-        for s in (light if (tier == "quick" and name.startswith(("gen:", "inh:"))) else sch):
+        # deep structures: a collection costs as much as the structure is big, so they get the light set
+        # of schedules in both tiers
+        for s in (light if (name.startswith("gen:deep") or (tier == "quick" and name.startswith(("gen:", "inh:")))) else sch):
             # every other run also collects while only the request's value is held (before manifesting it)
             c = {"k": "eval", "src_bytes": list(src), "gc": s, "counts": True, "hold_gc": len(cases) % 2 == 1,
                  "max_stack": 1000000 if name.startswith("gen:deep") else 200}
             if name.startswith("gen:deep") and s.get("mode") == "period" and s.get("period", 9) < 50:
-                c["gc"] = {"mode": "period", "period": 997, "phase": s.get("phase", 0)}   # every-step collection of 10^5 objects is quadratic
+                # every-step collection of 10^5 objects is quadratic: a period proportional to the depth
+                depth = int(name.rsplit(":", 1)[1])
+                c["gc"] = {"mode": "period", "period": 997 if depth <= 20000 else 49999, "phase": s.get("phase", 0)}
             cases.append(c)
             meta.append((name, s))
     results = run_cases(cases, "c03_sched", timeout_ms=60000)
